@@ -3,6 +3,7 @@ B = "core/BoundedSPSCQueue.h"
 U = "core/UnboundedSPSCQueue.h"
 BW = "backend/BackendWorker.h"
 TC = "core/ThreadContextManager.h"
+LM = "core/LoggerManager.h"
 CASES = [
  # ---------------- C01
  dict(name="c01-commit_write-relaxed", ids=["C01"], rule="C01.R1b", subs=[(B, "_atomic_writer_pos.store(_writer_pos, std::memory_order_release)", "_atomic_writer_pos.store(_writer_pos, std::memory_order_relaxed)")]),
@@ -562,4 +563,62 @@ CASES = [
  dict(name="c20-capacity-reported-from-consumer", ids=["C20", "C02"], rule="R", subs=[("Frontend.h", """        ->template get_spsc_queue<TFrontendOptions::queue_type>()
         .producer_capacity();""", """        ->template get_spsc_queue<TFrontendOptions::queue_type>()
         .capacity();""")]),
+
+ # ---------------- C17
+ dict(name="c17-get_number_of_loggers-no-lock", ids=["C17"], rule="C17.R1", subs=[(LM, """  QUILL_NODISCARD size_t get_number_of_loggers() const noexcept
+  {
+    LockGuard const lock{_spinlock};
+    return _loggers.size();""", """  QUILL_NODISCARD size_t get_number_of_loggers() const noexcept
+  {
+    return _loggers.size();""")]),
+ dict(name="c17-unlock-relaxed", ids=["C17"], rule="C17.R2b", subs=[("core/Spinlock.h", "_flag.store(State::Free, std::memory_order_release);", "_flag.store(State::Free, std::memory_order_relaxed);")]),
+ dict(name="c17-lock-relaxed", ids=["C17"], rule="C17.R2a", subs=[("core/Spinlock.h", "_flag.exchange(State::Locked, std::memory_order_acquire)", "_flag.exchange(State::Locked, std::memory_order_relaxed)")]),
+ dict(name="c17-erase-without-queue-check", ids=["C17"], rule="C17.R3a", subs=[(LM, "          if (!check_queues_empty())\n          {", "          if (false)\n          {")]),
+ dict(name="c17-flag-before-sink-cleanup", ids=["C17"], rule="C17.R4f", subs=[(BW, """      _sink_manager.cleanup_unused_sinks();
+
+      for (auto const& removed_logger_name : removed_loggers)""", """      for (auto const& removed_logger_name : removed_loggers)"""), (BW, """          _logger_removal_flags.erase(search_it);
+        }
+      }
+    }""", """          _logger_removal_flags.erase(search_it);
+        }
+      }
+      _sink_manager.cleanup_unused_sinks();
+    }""")]),
+ dict(name="c17-remove-before-request", ids=["C17"], rule="C17.R4d", subs=[("Frontend.h", """    std::atomic<bool>* logger_removal_complete_ptr = &logger_removal_complete;
+""", """    std::atomic<bool>* logger_removal_complete_ptr = &logger_removal_complete;
+    detail::LoggerManager::instance().remove_logger(logger);
+"""), ("Frontend.h", """    detail::LoggerManager::instance().remove_logger(logger);
+
+    while (!logger_removal_complete.load())""", """    while (!logger_removal_complete.load())""")]),
+ dict(name="c17-no-rearm-when-kept", ids=["C17"], rule="C17.R3b", subs=[(LM, "            ++it;\n            _has_invalidated_loggers.store(true, std::memory_order_release);", "            ++it;")]),
+ dict(name="c17-create-unlocks-between-find-and-insert", ids=["C17"], rule="C17.R1", subs=[(LM, """    LockGuard const lock{_spinlock};
+
+    LoggerBase* logger_ptr = _find_logger(logger_name);
+
+    if (!logger_ptr)
+    {""", """    _spinlock.lock();
+    LoggerBase* logger_ptr = _find_logger(logger_name);
+    _spinlock.unlock();
+
+    if (!logger_ptr)
+    {
+      LockGuard const lock{_spinlock};""")]),
+ dict(name="c17-add_filter-no-lock", ids=["C17"], rule="C17.R1", subs=[("sinks/Sink.h", """    // Lock and add this filter to our global collection
+    detail::LockGuard const lock{_global_filters_lock};
+""", "")]),
+ dict(name="c17-flag-for-all-pending", ids=["C17"], rule="C17.R4f", subs=[(BW, """      for (auto const& removed_logger_name : removed_loggers)
+      {
+        // Notify the user if the blocking call was used
+        auto search_it = _logger_removal_flags.find(removed_logger_name);
+        if (search_it != _logger_removal_flags.end())
+        {
+          search_it->second->store(true);
+          _logger_removal_flags.erase(search_it);
+        }
+      }""", """      for (auto& kv : _logger_removal_flags)
+      {
+        kv.second->store(true);
+      }
+      _logger_removal_flags.clear();""")]),
+ dict(name="c17-remove_logger-flag-before-invalid", ids=["C17"], rule="C17.R3e", subs=[(LM, "    logger->mark_invalid();\n    _has_invalidated_loggers.store(true, std::memory_order_release);", "    _has_invalidated_loggers.store(true, std::memory_order_release);\n    logger->mark_invalid();")]),
 ]
